@@ -336,18 +336,18 @@ def r4_selectors(ctx):
             r.inst("Plurals::populate_with_count_arg", "forms.get(category).unwrap_or(other).populate(args)")
         else:
             r.viol("R4:Plurals::populate_with_count_arg", "parse-time selection is no longer forms[category] else other", file=fn.file, line=fn.line)
-    fn = ast.fn("leptos_i18n/src/macro_helpers/mod.rs", "get_plural_category_for")
-    if fn is None:
+    from rules.common import msum, xquotes
+    got = msum(ctx.mir("main"), r"macro_helpers::get_plural_category_for$", stop=r"get_plural_rules$")
+    w = "PluralRules::category_for(formatting::get_plural_rules(p1, p3), Fn::call(p2, ()))"
+    if not got:
         r.missing("get_plural_category_for")
+    elif got[0][1] == w and not got[0][2]:
+        r.inst("get_plural_category_for", "get_plural_rules(locale, plural_rule_type).category_for(count())")
     else:
-        t = flatp(show(fn.body))
-        if not same(t, "{formatting::get_plural_ruleslocale,plural_rule_type.category_forcount}"):
-            r.viol("R4:get_plural_category_for", "run-time helper changed: %s" % t, file=fn.file, line=fn.line)
-        else:
-            r.inst("get_plural_category_for", "get_plural_rules(locale, plural_rule_type).category_for(count())")
+        r.viol("R4:get_plural_category_for", "run-time helper computes `%s`, expected `%s`" % (got[0][1], w), file="leptos_i18n/src/macro_helpers/mod.rs")
     fn = ast.fn("leptos_i18n_macro/src/t_plural/mod.rs", "t_plural_inner")
     if fn is not None:
-        qs = [re.sub(r"\s+", "", tok_text(q["tokens"])) for q in quotes_in(fn.body)]
+        qs = [re.sub(r"\s+", "", tok_text(q["tokens"])) for q in xquotes(fn.body)]
         if not any(q.startswith("matchleptos_i18n::__private::get_plural_category_for(#locale_ident,&#count_ident,#plural_type){#(#match_arms,)*#fallback,}") for q in qs):
             r.viol("R4:t_plural_inner", "t_plural! template changed", file=fn.file, line=fn.line)
         else:
